@@ -10,5 +10,5 @@ CONSTANTS
   Junk = 34
   EmitOn = TRUE
 CONSTRAINT HeadOK
-INVARIANTS ResumeEqFreshC StableC OffsSaneC CovProbe Emit EmitTwo EmitByte DeclCore DeclKind DeclExtra
+INVARIANTS ResumeEqFresh IdempotentC StableC OffsSaneC CovProbe Emit EmitTwo EmitByte DeclCore DeclKind DeclExtra
 CHECK_DEADLOCK FALSE
